@@ -2,6 +2,7 @@
 domain separation; heartbeat table bound)."""
 import json
 import core
+import overlay
 import proc_common
 
 HDR = ("From Coq Require Import Uint63.\nFrom Coq Require Import List ZArith Bool Arith Strings.Byte.\n"
@@ -199,6 +200,173 @@ def p2p_half(ctx, st):
     return rows
 
 
+# ------------------------------------------------------------------ the REAL receive / dispatch loop of p2p.Run (extension X5)
+RUN_HDR = ("From Coq Require Import Uint63.\nFrom Coq Require Import List ZArith Bool Arith Strings.Byte.\n"
+           "From WH Require Import lib.Bytes lib.Wire gen.Extracted gen.ExtractedP2P model.Vaa model.P2PVerify lib.P2PWire lib.P2PRunWire.\n"
+           "Import ListNotations.\nOpen Scope Z_scope.\n")
+
+
+def gmsg_run(o):
+    k = o.get("kind")
+    if k == "invalid":
+        return "MInvalid"
+    if k == "unknown":
+        return "MUnknown"
+    if k == "hb":
+        return "(MHeartbeat %s %s %s)" % (B(o.get("addr")), B(o.get("payload")), B(o.get("sig")))
+    if k == "req":
+        return "(MObsReq %s %s %s)" % (B(o.get("addr")), B(o.get("payload")), B(o.get("sig")))
+    if k == "obs":
+        return "(MObservation %s)" % B(o.get("id"))
+    if k == "vaa":
+        return "(MSignedVaa %s)" % B(o.get("id"))
+    raise ValueError(k)
+
+
+def gevent_run(h, o):
+    k = o["k"]
+    if k == "set":
+        return "(LSetGS %s)" % core.glist(B(x) for x in o.get("keys", []))
+    if k == "recv":
+        return "(LRecv %s %s)" % (B(o["from"]), gmsg_run(o))
+    if k == "lsend":       # published by the node itself: comes back with the node's own peer id
+        return "(LRecv %s %s)" % (B(h["self"]), gmsg_run(o))
+    if k == "lreq":
+        return "(LLocalReq %s)" % B(o.get("payload"))
+    raise ValueError(k)
+
+
+def grun(h, pre=None):
+    kec, rec = h["keccak"] or [], h["rec"] or []
+    if pre is not None:
+        want = set()
+        for o in h["ops"]:
+            if o.get("kind") == "hb":
+                want.add(pre[0] + o.get("payload", ""))
+            elif o.get("kind") == "req":
+                want.add(pre[1] + o.get("payload", ""))
+        kec = [(a, b) for a, b in kec if a in want]
+        dg = {b for _, b in kec}
+        rec = [(a, b, c) for a, b, c in rec if a in dg]
+    kc = core.glist("(%s, %s)" % (B(a), B(b)) for a, b in kec)
+    rc = core.glist("(%s, %s, %s)" % (B(a), B(b), "Some %s" % B(c) if c else "None") for a, b, c in rec)
+    dh = core.glist("(%s, %s)" % (B(a), ("Some %s" % core.gz(b)) if b != "" else "None") for a, b in (h["dechb"] or []))
+    dr = core.glist("(%s, %s)" % (B(a), core.gbool(b == "1")) for a, b in (h["decreq"] or []))
+    evs = core.glist(gevent_run(h, o) for o in h["ops"])
+    ex = core.glist("([%d;%d;%d]%%uint63, %s)" % (s["th"], s["ne"], s["na"], core.glist("(%d, %s)" % (int(c), B(i)) for c, i in s["outs"])) for s in h["steps"])
+    return ("{| pr_keccak := %s; pr_rec := %s; pr_dechb := %s; pr_decreq := %s; pr_disable := %s; pr_self := %s; pr_evs := %s; pr_expect := %s |}"
+            % (kc, rc, dh, dr, core.gbool(h["disable"]), B(h["self"]), evs, ex))
+
+
+def describe_run(h, step):
+    return {"harness": "p2p_run (real p2p.Run loop over TCP)", "history": h["id"], "shape": h.get("shape"), "disableHeartbeatVerify": h["disable"],
+            "self_peer": h["self"], "own_guardian_address": h["ouraddr"], "ops": h["ops"][:step + 1],
+            "impl_steps": h["steps"][:step + 1]}
+
+
+def run_mon_key(m):
+    for pre, k in (("loopback:", "loop:loopback-effect"), ("envelope had an effect", "loop:ignored-envelope-effect"), ("pass-through:", "loop:pass-through"),
+                   ("observation request forwarded", "loop:request-unauthenticated-forward"), ("observation-request envelope had another effect", "loop:request-other-effect"),
+                   ("forwarded request differs", "loop:request-altered"), ("heartbeat had an effect", "loop:heartbeat-unauthenticated-effect"),
+                   ("heartbeat envelope produced", "loop:heartbeat-channel-output"), ("accepted heartbeat of signer", "loop:heartbeat-stored-elsewhere"),
+                   ("local observation request", "loop:local-request-delivery"), ("cap:", "loop:cap"),
+                   ("after G's own heartbeat", "loop:own-heartbeat-table"), ("G's own heartbeat produced", "loop:own-heartbeat-output")):
+        if m.startswith(pre):
+            return k
+    return "loop:" + m[:40]
+
+
+def loop_half(ctx, st):
+    """harness/p2p_run: the working tree's p2p.Run (QUIC -> TCP, nothing else changed) driven by two gossipsub peers"""
+    rc, out, trace = core.harness_pkg(ctx, "p2p_run", "^TestVerifC03Run$", timeout=2400, race=(ctx.tier == "thorough"), env=dict(overlay.TCP_ENV))
+    allrows = core.read_jsonl(trace)
+    rows = [r for r in allrows if r.get("k") == "run"]
+    if rc != 0 or not rows:
+        ctx.problem("machinery", "go harness p2p_run (real p2p.Run loop)", out[-2500:])
+        return None
+    for r in allrows:
+        if r.get("k") == "metrics":
+            ctx.cov["loop_received_counter_by_label"] = r.get("received")
+    good = []
+    for h in rows:
+        if h.get("fatal") or h.get("timeout"):
+            # the harness already retried the whole scenario once: a delivery deadline (>= 25 s each) is a machinery problem, never a violation
+            ctx.problem("machinery", "real-loop scenario %s did not complete (second attempt)" % h["id"],
+                        "%s%s; first attempt: %s" % (h.get("timeout") or "", h.get("fatal") or "", (h.get("extra") or {}).get("first_attempt")))
+            continue
+        good.append(h)
+    # ---- monitors (evaluated in Go with direct crypto and hard-coded prefixes on what the real loop did)
+    seen = {}
+    nmon = 0
+    for h in good:
+        for i, s in enumerate(h["steps"]):
+            for m in (s.get("mon") or []):
+                nmon += 1
+                k = run_mon_key(m)
+                if k in seen:
+                    continue
+                seen[k] = 1
+                if len(seen) <= 6:
+                    ctx.problem("monitor", m, "observed on the real p2p.Run loop (history %d step %d, op %s %s)" % (h["id"], i, h["ops"][i]["k"], h["ops"][i].get("note", "")),
+                                concrete=True, replay=describe_run(h, i), key=k)
+        for m in (h.get("pub_mon") or []):
+            nmon += 1
+            k = run_mon_key(m)
+            if k in seen:
+                continue
+            seen[k] = 1
+            if k.startswith("loop:own-heartbeat"):
+                ctx.problem("monitor", m, "observed on the real p2p.Run loop after the node's own periodic heartbeat (history %d)" % h["id"],
+                            concrete=True, replay=describe_run(h, len(h["ops"]) - 1), key=k)
+            else:   # sender side (what the node publishes): outside the property's statement, reported as a tie problem
+                ctx.problem("correspondence", "what p2p.Run publishes is not what the verifiers of the other guardians accept", m,
+                            concrete=False, replay={"history": h["id"], "published": h.get("pubs")})
+    ctx.cov["loop_monitor_messages"] = nmon
+    # ---- model vs the real loop, inside Coq
+    info = (st.get("p2p_verify") or {}).get("info") or {}
+    pre = (info["hb_pre_hex"], info["req_pre_hex"]) if ("hb_pre_hex" in info and "req_pre_hex" in info) else None
+    if good:
+        # histories are split in chunks? no: the model state threads through; one file per history
+        texts = [RUN_HDR + "Definition cases : list p2run := [%s].\nDefinition M := Eval vm_compute in map check_p2run cases.\nPrint M.\n" % grun(h, pre) for h in good]
+        res = core.coq_eval_many(ctx, "cases_C03r", texts, timeout=1500)
+        nbad = 0
+        for h, (ok, o) in zip(good, res):
+            m = core.parse_print(o, "M")
+            vals = core.zlist(m) if (ok and m is not None) else None
+            if not vals or len(vals) != 1:
+                ctx.problem("correspondence", "cases_C03r evaluation", o[-800:])
+                continue
+            stp = vals[0]
+            if stp >= 0:
+                nbad += 1
+                if nbad <= 3:
+                    op = h["ops"][stp] if stp < len(h["ops"]) else {}
+                    s = h["steps"][stp] if stp < len(h["steps"]) else {}
+                    ctx.problem("correspondence", "model P2PVerify.loop_run differs from the real p2p.Run dispatch loop",
+                                "history %d step %d op=%s kind=%s note=%s impl outs=%s entries=%s" % (h["id"], stp, op.get("k"), op.get("kind"), op.get("note"), s.get("outs"), s.get("ne")),
+                                concrete=False, replay=describe_run(h, stp))
+        ctx.cov["loop_histories_validated_against_impl"] = len(good)
+        ctx.cov["loop_mismatches"] = nbad
+    # ---- coverage
+    kinds, eff = {}, {}
+    for h in good:
+        prev = (0, 0)
+        for o, s in zip(h["ops"], h["steps"]):
+            note = o.get("note", "")
+            k = o["k"] + ":" + (o.get("kind") or "") + (":" + note.split(":")[1] if o.get("kind") in ("hb", "req") and note.count(":") >= 1 else "")
+            kinds[k] = kinds.get(k, 0) + 1
+            e = "%s:%s -> %s%s" % (o["k"], o.get("kind") or "-", "table " if (s["th"], s["ne"]) != prev else "", "chan" + "".join(sorted({c for c, _ in s["outs"]})) if s["outs"] else "")
+            eff[e.strip()] = eff.get(e.strip(), 0) + 1
+            prev = (s["th"], s["ne"])
+    ctx.cov["loop_event_kind_hist"] = kinds
+    ctx.cov["loop_effect_hist"] = eff
+    ctx.cov["loop_histories"] = len(good)
+    ctx.cov["loop_events_total"] = sum(len(h["ops"]) for h in good)
+    ctx.cov["loop_published_by_node"] = sorted({p.split(" ")[0] for h in good for p in (h.get("pubs") or [])})
+    ctx.cov["loop_timing_ms"] = [{"id": h["id"], "mesh": h["mesh_ms"], "history": h["hist_ms"], "own_heartbeat_wait": h["ownhb_ms"], "attempt": h["attempt"]} for h in good]
+    return good
+
+
 # ------------------------------------------------------------------ observation half: monitor over the processor histories
 def to_address(hexs):
     b = bytes.fromhex(hexs or "")
@@ -260,12 +428,14 @@ def obs_monitor(ctx, rows):
 
 
 def run(ctx):
-    st = core.run_extract(ctx, ["p2p_verify", "gst_table", "obs_guards", "processor_consts", "quorum_go", "vaa_consts"])
-    core.coq_prove(ctx, "C03", extra_targets=["lib/P2PWire.vo", "lib/ProcWire.vo"])
+    st = core.run_extract(ctx, ["p2p_verify", "gst_table", "obs_guards", "p2p_loop", "processor_consts", "quorum_go", "vaa_consts"])
+    core.coq_prove(ctx, "C03", extra_targets=["lib/P2PWire.vo", "lib/P2PRunWire.vo", "lib/ProcWire.vo"])
     if ctx.tier == "thorough":
         core.coq_thorough_audit(ctx, "C03")
     # ---- p2p half
     prow = p2p_half(ctx, st)
+    # ---- the real receive / dispatch loop of p2p.Run
+    lrow = loop_half(ctx, st)
     # ---- observation half on the processor harness
     rows = proc_common.run_harness(ctx)
     if rows is not None:
@@ -283,7 +453,8 @@ def run(ctx):
     # ---- summary numbers
     nproc = len(rows or [])
     npp = len(prow or [])
-    ctx.evaluations = nproc + npp
+    nloop = len(lrow or [])
+    ctx.evaluations = nproc + npp + nloop
     dist = set()
     for h in prow or []:
         for o, s in zip(h["ops"], h["steps"]):
@@ -294,7 +465,12 @@ def run(ctx):
         for o in h["ops"]:
             if o["k"] == "obs":
                 nobs.add((o.get("addr"), o.get("hash"), o.get("sig")))
-    ctx.distinct = len(dist) + len(nobs)
+    ldist = set()
+    for h in lrow or []:
+        for o in h["ops"]:
+            if o["k"] in ("recv", "lsend"):
+                ldist.add((o["k"], o.get("from"), o.get("data")))
+    ctx.distinct = len(dist) + len(nobs) + len(ldist)
     ctx.rule = ("p2p: seeded histories over guardian sets of 1..19 keys (two sets A/B with members dropped and added, switched back and forth, one with a repeated key): "
                 "validly signed heartbeats / requests (real secp256k1) and 24 single mutations of each (payload / signature / address bit flips, recid, lengths, "
                 "outsider, outsider with member address, member with another member's address, other type's prefix, no prefix, prefix without separator, "
@@ -302,11 +478,17 @@ def run(ctx):
                 "signed garbage, empty fields, cross-type replay, zero signature), messages before any set is known, the devnet no-verify flag, "
                 "own heartbeats, cleanup at virtual ages around 60 s, 13..19 peers for one guardian, extreme timestamps; "
                 "processor: the C01/C02 histories incl. forged / non-member / wrong-address / other-digest / malformed observations around set changes. "
-                "evaluations = histories; distinct = distinct (type, address, payload, signature) gossip messages + distinct observations")
+                "real loop (p2p.Run over TCP, two gossipsub peers): per node a seeded history in four phases (no set / set A / set B with members dropped and added / A again) of "
+                "valid and 20 single mutations of signed heartbeats and requests (incl. decodable payloads of exactly 32..35 signed bytes), observations, signed VAAs, undecodable bytes, "
+                "unknown types, replays from the other peer, own-peer-id loopback of every kind through sendC, local requests through obsvReqSendC, one node with disableHeartbeatVerify; "
+                "evaluations = histories; distinct = distinct (type, address, payload, signature) gossip messages + distinct observations + distinct (publisher, envelope bytes) of the real loop")
     ctx.samples = []
     for h in (prow or [])[:1]:
         ctx.samples.append({"p2p_history": h["id"], "shape": h.get("shape"),
                             "ops": [o["k"] + (":" + o["note"] if o.get("note") else "") + "->" + str(s["res"]) for o, s in zip(h["ops"], h["steps"])][:50]})
+    for h in (lrow or [])[:1]:
+        ctx.samples.append({"real_loop_history": h["id"], "shape": h.get("shape"),
+                            "ops": [o["k"] + ":" + (o.get("kind") or "") + (":" + o["note"] if o.get("note") else "") + "->" + json.dumps(s["outs"]) for o, s in zip(h["ops"], h["steps"])][:40]})
     for h in (rows or [])[:1]:
         ctx.samples.append({"processor_history": h["id"], "shape": h.get("shape"),
                             "ops": [o["k"] + (":" + o["note"] if o.get("note") else "") for o in h["ops"]][:40]})
@@ -314,6 +496,7 @@ def run(ctx):
         "recover / keccak are arbitrary functions in every theorem; in the correspondence runs they are the finite tables of go-ethereum crypto.Ecrecover / Keccak256 results recorded by the harnesses through direct calls",
         "protobuf decoding of the inner Heartbeat / ObservationRequest is an oracle (arbitrary function in the theorems, recorded table of proto.Unmarshal results in the runs)",
         "that a signature accepted for one purpose is not ALSO a valid signature for another digest needs Keccak collision resistance and ECDSA unforgeability: the theorems show the signed byte strings differ and exhibit the collision that equal digests would be; exercised with real keys, not proved",
-        "the libp2p dispatch loop inside p2p.Run cannot be executed here (QUIC dependency, Run is stubbed in the overlay): its switch is modelled (gossip_step) and its shape pinned by the extractor; the two verifiers, GuardianSetState and handleObservation are the real code",
+        "the receive / dispatch loop of p2p.Run is executed for real (harness p2p_run) from a copy of the working tree's p2p.go in which only the transport is changed (QUIC import / option / two listen addresses -> TCP on 127.0.0.1; go-libp2p's defaults.go loses its unused QUIC default): libp2p, gossipsub (message signing, validation, forwarding) and the DHT bootstrap are the real libraries and trusted; the per-envelope synchronisation relies on gossipsub delivering a validated message to the local subscription before forwarding it",
+        "in the real-loop histories the node's own periodic heartbeat (15 s ticker) and the Cleanup ticker run asynchronously: the own entry (own guardian address, own peer id) is kept out of the compared table, test heartbeats carry Timestamps 10 days ahead so that Cleanup never removes them",
         "Cleanup's clock: stored Timestamps are rewritten to real-now minus a whole-second virtual age right before the call (DESIGN section 4); steps whose rewrite-to-call latency exceeded 500 ms are discarded and counted",
     ]
